@@ -137,14 +137,16 @@ SP_RULE = ('random graphs of all 8 kinds (directed x multi-edge x self-loops) wi
 
 PROPS.update({
     'C04': dict(
-        extra_modules=['GraphrsModel.Props.C04Model', 'GraphrsModel.Props.C08Api', 'GraphrsModel.Props.C04Paths', 'GraphrsModel.Props.C04PathsReach'],
+        extra_modules=['GraphrsModel.Props.C04Model', 'GraphrsModel.Props.C08Api', 'GraphrsModel.Props.C04Paths', 'GraphrsModel.Props.C04PathsReach', 'GraphrsModel.Props.FormulasC04'],
+        translators=['formulas'],
         gens=[('sp', 'small', 2500, 40000, 8), ('sp', 'parallel', 60, 600, 40)],
         spec_fields=[r'ok\.ss', r'ok\.ms', r'ok\.ap'],
         model_fields=[r'build', r'ss', r'ms', r'ap'],
         nontrivial=sp_nontrivial, hist=sp_hist, rule=SP_RULE, assumptions=COMMON_ASSUME,
     ),
     'C08': dict(
-        extra_modules=['GraphrsModel.Props.C04Model', 'GraphrsModel.Props.C08Api', 'GraphrsModel.Props.C04Paths', 'GraphrsModel.Props.C04PathsReach'],
+        extra_modules=['GraphrsModel.Props.C04Model', 'GraphrsModel.Props.C08Api', 'GraphrsModel.Props.C04Paths', 'GraphrsModel.Props.C04PathsReach', 'GraphrsModel.Props.FormulasC04'],
+        translators=['formulas'],
         gens=[('sp', 'small', 2500, 40000, 7), ('sp', 'parallel', 80, 800, 30)],
         spec_fields=[r'ok\.ss', r'ok\.ms', r'ok\.ap', r'ok\.inv'],
         model_fields=[r'build', r'ss', r'ms', r'ap', r'inv'],
@@ -272,12 +274,13 @@ PROPS.update({
         extra_modules=['GraphrsModel.Props.C17Model', 'GraphrsModel.Props.FormulasC13'],
         translators=['formulas'],
         thorough_scale=2,
-        gens=[('louv', 'ties', 1200, 20000, 12), ('louv', 'random', 600, 10000, 9), ('louv', 'nearties', 300, 5000, 0), ('louv', 'inexact', 600, 10000, 10), ('par', 'some', 12, 60, 0)],
+        gens=[('louv', 'ties', 1200, 20000, 12), ('louv', 'random', 600, 10000, 9), ('louv', 'nearties', 300, 5000, 0), ('louv', 'inexact', 600, 10000, 10), ('par', 'some', 12, 60, 0),
+              ('gnp', 'small', 300, 5000, 40), ('gnp', 'large', 20, 200, 300), ('gnp', 'huge', 8, 80, 0)],
         spec_fields=[], model_fields=[r'build'], impl_checks=[('same', '1'), ('par', '1')],
         extra_checks=['fresh_process_identical'],
-        nontrivial=lambda req, I: True if req.startswith('par') else ',' in I.get('parts', ''),
-        hist=lambda req, I: ['family.par'] if req.startswith('par') else graph_hist(req, I) + ['levels.%d' % len(I.get('parts', '').split())],
-        rule=LOUV_RULE + '; profile "nearties": a hub joined to 3-5 identical cliques by edges whose weights differ in the tenth significant digit, or are all of the order 1e-9 (gains neither equal nor clearly apart); profile "inexact": random and tie-rich graphs with decimal weights k/3, k/7, k/10, k/100, k·1e-10 (sums not exact in f64); each case is run twice in one process, in rayon pools of 1 and 4 threads, and again in a second process',
+        nontrivial=lambda req, I: True if req.startswith('par') else (I.get('edges', '.') not in ('.', 'E3') or I.get('m', '0') != '0') if req.startswith('gnp') else ',' in I.get('parts', ''),
+        hist=lambda req, I: ['family.par'] if req.startswith('par') else gen_hist(req, I) if req.startswith('gnp') else graph_hist(req, I) + ['levels.%d' % len(I.get('parts', '').split())],
+        rule=LOUV_RULE + '; profile "nearties": a hub joined to 3-5 identical cliques by edges whose weights differ in the tenth significant digit, or are all of the order 1e-9 (gains neither equal nor clearly apart); profile "inexact": random and tie-rich graphs with decimal weights k/3, k/7, k/10, k/100, k·1e-10 (sums not exact in f64); each case is run twice in one process, in rayon pools of 1 and 4 threads, and again in a second process; fast_gnp_random_graph with a seed: 0..300 nodes called twice and in pools of 1 and 4 workers, 600..2640 nodes (far above any size threshold) called twice and in pools of 1, 2, 4 and 16 workers',
         assumptions=COMMON_ASSUME[:2] + ['the std hasher (RandomState) is library code: its per-instance keying is exercised by repeated calls '
                                          'and fresh processes, not modelled'],
     ),
@@ -339,6 +342,9 @@ def gnpstat_check(req, I):
 def gen_hist(req, I):
     t = req.split()
     keys = ['family.' + t[0]]
+    if t[0] == 'gnpdet':
+        keys.append('gnpdet.n.%s' % ('600-1000' if int(t[1]) <= 1000 else '1001+'))
+        keys.append('gnpdet.dir' + t[4])
     if t[0] == 'gnp':
         n = int(t[1])
         keys.append('gnp.n.%s' % ('0-5' if n <= 5 else '6-40' if n <= 40 else '41+'))
@@ -352,11 +358,11 @@ PROPS.update({
         extra_modules=['GraphrsModel.Props.C16Store', 'GraphrsModel.Props.C16Dist', 'GraphrsModel.Props.C16DistDir', 'GraphrsModel.Props.FormulasC16'],
         thorough_scale=1.5,
         gens=[('complete', '-', 120, 600, 14), ('karate', '-', 1, 1, 0), ('gnp', 'small', 1500, 25000, 40), ('gnp', 'sparse', 4000, 60000, 40), ('gnp', 'large', 40, 400, 300),
-              ('gnpstat', '-', 40, 300, 0)],
+              ('gnp', 'huge', 6, 60, 0), ('gnpstat', '-', 40, 300, 0)],
         translators=['karate', 'presets'],
-        spec_fields=[r'ok\.complete', r'ok\.karate', r'ok\.gnp'], model_fields=[r'nodes', r'edges'], impl_checks=[('same', '1')],
+        spec_fields=[r'ok\.complete', r'ok\.karate', r'ok\.gnp'], model_fields=[r'nodes', r'edges'], impl_checks=[('same', '1'), ('structure', '1')],
         custom=gnpstat_check, require_spec_fields=False,
-        nontrivial=lambda req, I: I.get('edges', '.') not in ('.', 'E3') or 'sum' in I,
+        nontrivial=lambda req, I: I.get('edges', '.') not in ('.', 'E3') or 'sum' in I or I.get('m', '0') != '0',
         hist=gen_hist,
         rule='complete_graph(n, directed) for n in 0..14; karate_club_graph(); fast_gnp_random_graph(n, p, directed, seed) for n in 0..40 '
              '(model comparison through the skip sequence the seed produces) and 41..300 (structure only), p in {0, 1, <0, >1, 1e-12, 1e-17, '
@@ -493,7 +499,7 @@ def run_translator(ctx, name):
     if name == 'formulas':
         import formulas
         # C17 relies on the same expressions of update_best_com as C13
-        return formulas.formulas({'C17': 'C13'}.get(ctx.prop, ctx.prop))
+        return formulas.formulas({'C17': 'C13', 'C08': 'C04'}.get(ctx.prop, ctx.prop))
     import extract
     return extract.run(ctx, name)
 
